@@ -13,6 +13,8 @@ pub mod polyvec;
 pub mod rounding;
 pub mod reduce;
 pub mod sign;
+#[cfg(feature = "verif-hooks")]
+pub mod verif_hooks;
 
 pub enum PH {
     SHA256,
@@ -27,9 +29,13 @@ use rand::RngCore;
 /// * 'bytes' - an array to fill with random data
 /// * 'n' - number of bytes to generate
 fn random_bytes(bytes: &mut [u8], n: usize) {
+    #[cfg(feature = "verif-hooks")]
+    if crate::verif_hooks::rng_tap(bytes, n) { return; }
     rand::prelude::thread_rng()
         .try_fill_bytes(&mut bytes[..n])
         .unwrap();
+    #[cfg(feature = "verif-hooks")]
+    crate::verif_hooks::rng_record(bytes, n);
 }
 
 #[cfg(test)]
